@@ -6,7 +6,7 @@ from contracts import interstitial_rt as I, vacancy_rt as V, interstitial_sx as 
 
 def main(tier):
     rep = Report('C11', tier)
-    n = len(catalogue.builders(tier, SEED))
+    n = len(catalogue.builders(tier, SEED)) + len(catalogue.interstitial_extras(tier, SEED))
     runner.run(rep, 'Interstitial::contract', I.w_interstitial, [(i, tier, SEED, 'C11') for i in range(n)], 'onsager/OnsagerCalc.py::Interstitial.diffusivity')
 
     IS.run_all(rep, tier, 'C11:')
